@@ -522,6 +522,20 @@ class CFG:
     def fact_keys_at(self, n):
         return {f.key() for f in self.facts_at(n)}
 
+    def facts_at_expr(self, n, sub):
+        """Facts holding when sub-expression ``sub`` of node ``n`` is evaluated: the
+        dominating branch facts plus, inside an ``a and b`` test, the conjuncts left of it."""
+        out = list(self.facts_at(n))
+        roots = _own_exprs(n.ast) if n.ast is not None else []
+        for root in roots:
+            for b in walk_own(root):
+                if isinstance(b, ast.BoolOp):
+                    for i, v in enumerate(b.values):
+                        if any(x is sub for x in walk_own(v)):
+                            for w in b.values[:i]:
+                                out.extend(implied(w, isinstance(b.op, ast.And)))
+        return out
+
     def guarded(self, n, expr_text, pol=True):
         return fact_key(expr_text, pol) in self.fact_keys_at(n)
 
